@@ -11,7 +11,7 @@ Definition F : nat := N.to_nat full_meta_blob_size.
 
 (* harness-level operations name blobs by plaintext id; names of ciphertexts are looked up here *)
 Inductive hop :=
-| HReceive (p : N) | HJobUpload | HJobAbort | HJobDelete (ok : bool) | HRestart
+| HReceive (p : N) | HReceiveFail (at_meta : bool) (p : N) | HJobUpload | HJobAbort | HJobDelete (ok : bool) | HRestart
 | HJunkBlob (p : N)            (* the ciphertext of p is replaced by bytes the store never produced (flip, cut, extension) *)
 | HSwapBlob (p q : N)          (* ... by the ciphertext of q *)
 | HJunkMeta (i : nat)          (* the i-th meta blob (in the model's store order) is replaced by junk *)
@@ -20,6 +20,7 @@ Inductive hop :=
 Definition hstep (s : st) (h : hop) : option st :=
   match h with
   | HReceive p => step L F s (OReceive p)
+  | HReceiveFail m p => step L F s (OReceiveFail m p)
   | HJobUpload => step L F s OJobUpload
   | HJobAbort => step L F s OJobAbort
   | HJobDelete ok => step L F s (OJobDelete ok)
